@@ -694,6 +694,14 @@ fn run_case(sc: &Script, forced: &[usize], rng: &mut Rng) -> CaseResult {
         }
     };
     let n_pubs = tr.n_pubs;
+    // pending commands per existing gate object (root = 0, clones by model id)
+    let mut pend: Vec<(usize, usize)> = vec![];
+    if let Some(r) = root_arc.as_deref() { if let Some(n) = vg::gate_pending_commands(r) { pend.push((0, n)); } }
+    for o in &outs { if let Some(gt) = o.gate.as_ref() {
+        if let (Some(p), Some(n)) = (vg::gate_clone_id(gt).and_then(|u| tr.clone_uuid.get(&u).copied()), vg::gate_pending_commands(gt)) { pend.push((p, n)); }
+    } }
+    pend.sort();
+    let pend_s = if pend.is_empty() { "-".to_string() } else { join(pend.iter().map(|(p, n)| format!("{p}:{n}")), ",") };
     let mut links_s = vec![];
     let mut by_slot: Vec<&SubRec> = tr.subs.iter().filter(|s| s.t_conn.is_some()).collect();
     by_slot.sort_by_key(|s| s.slot);
@@ -706,7 +714,7 @@ fn run_case(sc: &Script, forced: &[usize], rng: &mut Rng) -> CaseResult {
         }).collect();
         links_s.push(format!("{}:{}:{}{}", slot, if tr.slot_direct[slot] { "d" } else { "q" }, if per.is_empty() { "-".into() } else { per.join("/") }, if rec.map(|s| s.gone).unwrap_or(false) { ":gone" } else { "" }));
     }
-    let imp = format!("ok {maps} L={} T={} RT={}", if links_s.is_empty() { "-".into() } else { links_s.join(" ") }, show_nums(tr.terminated_pubs.clone()), tr.root_terminated);
+    let imp = format!("ok {maps} L={} T={} RT={} Q={pend_s}", if links_s.is_empty() { "-".into() } else { links_s.join(" ") }, show_nums(tr.terminated_pubs.clone()), tr.root_terminated);
 
     // ---- oracle: the property on the real observations
     let mut fails: Vec<String> = tr.bad.iter().map(|b| format!("engine-{b}")).collect();
